@@ -107,11 +107,21 @@ fn resource_template(rng: &mut Rng, k: usize) -> (String, String) {
     let extra = ["u32", "string", "list<u8>", "option<string>", "tuple<u8, string>"];
     let t1 = *rng.pick(&extra);
     let t2 = *rng.pick(&extra);
-    let use_imported_in_export = rng.chance(2, 3);
+    let use_imported_in_export = true;
     let mut exp_extra = String::new();
     let mut use_line = String::new();
     if use_imported_in_export {
         use_line = format!("  use imp-api.{{{r1}}};\n");
+        // a borrow of the imported resource as one case among siblings that share
+        // its flat slot (u32, u64, own, enum, none): only the borrow case lends a handle
+        exp_extra.push_str(&format!(
+            "  enum sel-kind {{ ka, kb, kc }}\n  variant sel {{ by-handle(borrow<{r1}>), by-id(u32), by-big(u64), by-own({r1}), by-kind(sel-kind), nothing }}\n  variant sel-b {{ first(u64), then-handle(borrow<{r1}>), third(s32) }}\n"
+        ));
+        exp_extra.push_str("  pick: func(s: sel) -> u32;\n");
+        exp_extra.push_str("  pick-two: func(a: sel, n: u32, b: sel-b) -> u32;\n");
+        exp_extra.push_str(&format!("  pick-res: func(r: result<borrow<{r1}>, u32>) -> u32;\n"));
+        exp_extra.push_str(&format!("  pick-res-err: func(r: result<u64, borrow<{r1}>>, o: option<borrow<{r1}>>) -> u32;\n"));
+        exp_extra.push_str(&format!("  pick-nested: func(t: tuple<u8, option<sel>>, r: result<sel-b, u32>) -> u32;\n"));
         exp_extra.push_str(&format!("  with-imported: func(b: borrow<{r1}>, o: {r1}, x: {t1}) -> {r1};\n"));
         exp_extra.push_str(&format!("  with-imported-agg: func(o: option<borrow<{r1}>>, t: tuple<{r1}, u8>) -> option<{r1}>;\n"));
     }
